@@ -11,6 +11,18 @@ import itertools
 
 PROPERTY = "C10"
 LEVEL = "model_checking"
+ENGINE = "enumx"
+TECHNIQUE = "explicit-state bounded exhaustive enumeration of statement programs (prefix transition system), every query checked against a reference interpreter"
+LEVEL_TEXT = (
+    "Every straight-line program up to the stated length over the stated statement alphabet is generated "
+    "(no sampling) and every Statements query on it is compared with a sequential reference interpreter; "
+    "this is the right level because the property quantifies over all programs and its known failure modes "
+    "(redefinition, self reference, use before definition, dead users) have witnesses of length <= 3."
+)
+LEVEL_NOTE = (
+    "trusted: the 60-line reference interpreter and the tree evaluator vlib/xeval.py; values compared on 3 numeric "
+    "environments; nothing is claimed for programs longer than the bound or rhs shapes outside the menu"
+)
 PREIMPORT = ("pharmpy.model", "pharmpy.modeling")
 RULE = (
     "all straight-line programs (canonical up to renaming of the assigned symbols A,B,C) of "
